@@ -192,6 +192,28 @@ func genStream(r *hx.Rng, tier string, w io.Writer, adversarial bool) {
 	for _, name := range hx.SortedKeys(fg) {
 		fmt.Fprintf(w, "blob da=3 %s\n", blobArgs(fg[name]))
 	}
+	// a header already applied (seen), then copies of it that nobody signed appear on the DA layer
+	if adversarial {
+		g := c.shs[c.ih+1]
+		gb := c.hdr[c.ih+1]
+		fmt.Fprintf(w, "seen %s\n", blobArgs(gb))
+		u := *g
+		u.Signature = r.Bytes(64)
+		ub, _ := u.MarshalBinary()
+		fmt.Fprintf(w, "blob da=4 %s\n", blobArgs(ub))
+		u2 := *g
+		u2.Signature = nil
+		ub2, _ := u2.MarshalBinary()
+		fmt.Fprintf(w, "blob da=4 %s\n", blobArgs(ub2))
+		fmt.Fprintf(w, "blob da=5 %s\n", blobArgs(gb))
+		// the P2P path: genuine headers and every forgery
+		for h := c.ih; h <= c.top; h++ {
+			fmt.Fprintf(w, "p2phdr %s\n", blobArgs(c.hdr[h]))
+		}
+		for _, name := range hx.SortedKeys(fg) {
+			fmt.Fprintf(w, "p2phdr %s\n", blobArgs(fg[name]))
+		}
+	}
 	var srcs [][]byte
 	for h := c.ih; h <= c.top; h++ {
 		srcs = append(srcs, c.hdr[h])
